@@ -302,6 +302,21 @@ def run(ctx, repo):
                                 '%s sets eliminated = False for an athlete without testing that they have not retired: a retired athlete is '
                                 'let back in and their next jump is accepted' % f.name, 'leader retires in a jump-off, rival fails')
     ctx.floor('reinstatement sites', n_re, 2)
+    # only a failure below the limit and a new bar re-open the round for an athlete: a reinstatement must not clear `dismissed`
+    clearers = set()
+    for f in ast.walk(mod.tree):
+        if isinstance(f, ast.FunctionDef):
+            for n in ast.walk(f):
+                if isinstance(n, ast.Assign) and isinstance(n.value, ast.Constant) and n.value.value is False and any(
+                        isinstance(t, ast.Attribute) and t.attr == 'dismissed' for t in n.targets):
+                    clearers.add(f.name)
+    extra = clearers - {'__init__', 'failed', 'set_bar_height'}
+    if extra:
+        ctx.finding('R6', '%s::dismissed cleared in %s' % (HJ, sorted(extra)), HJ, None,
+                    'dismissed is set to False in %s: an athlete who is done at the current bar (three failures, cleared or passed) can take '
+                    'another trial at that bar before a new height is set' % sorted(extra), 'tied leaders eliminated at different heights, the earlier one acts before the next bar')
+    else:
+        ctx.ok('R6', 'dismissed is cleared only by a failure below the limit and by set_bar_height')
     check_failed(ctx, jm['failed'])
     check_limit_test(ctx, guard)
     # limits: constants 3 (initial) and 1 (jump-off)
